@@ -112,14 +112,24 @@ def cycle(F, rep):
     body = fn_body(fn)
     ok = False
     n = 0
+    bad = []
     for m in nodes(body, "Match"):
-        for arm, alt, vp in arm_alternatives(m):
-            if vp and vp.endswith("State::Inserting"):
-                n += 1
-                b = peel(arm["body"])
-                if b.get("k") == "Call" and (callee(b) or "").endswith("Result::Err"):
-                    ok = True
-    rep.ob("CYCLE", "order::recurse|Inserting=>Err", ok, "re-entering a node in state Inserting returns Err (cycle detected)", fn["sp"])
+        for arm in m["arms"]:
+            names = {pat_variant(alt) for alt in pat_alternatives(arm["pat"])}
+            if not any(v and v.endswith("State::Inserting") for v in names):
+                continue
+            n += 1
+            b = peel(arm["body"])
+            is_err = b.get("k") == "Call" and (callee(b) or "").endswith("Result::Err")
+            if arm.get("guard") is not None or not is_err:
+                bad.append(line_of(arm))
+            else:
+                ok = True
+    ok = ok and not bad
+    rep.ob("CYCLE", "order::recurse|Inserting=>Err", ok,
+           "re-entering a node in state Inserting returns Err (cycle detected) in every arm, unconditionally%s" % (
+               "" if ok else " — NOT so at %s: some cycles are accepted, and whether one is depends on where the walk enters it "
+               "(source order)" % bad), fn["sp"])
     # the Inserting state must be entered before recursing into dependencies, Inserted after
     calls = [c for c in nodes(body) if c.get("k") in ("Call", "MethodCall")]
     ins = [c for c in calls if c.get("k") == "MethodCall" and c["m"] == "insert"]
